@@ -2,13 +2,13 @@
 from specs import s3
 
 LEVEL = 'proof'
-UNITS = s3.prepare_units('C16') + s3.method_units('C16') + s3.list_units('C16')[:1]
+UNITS = s3.prepare_units('C16') + s3.method_units('C16') + s3.list_units('C16')[:1] + s3.ctor_units('C16')
 BOUNDED = [{'name': 'C16.wire', 'script': 'bounded/c16_wire.py', 'timeout': 600, 'bound': 'EXHAUSTIVE per-byte encoding (256 values, path and query); wire scenarios: 3 (thorough: 6) payload sizes around the 128000-byte stream chunk x 3-4 names x prefixes/tokens over printable and non-ASCII alphabets, every adapter operation, independent SigV4'}]
 TRUSTED = [
     'vf symbolic executor (/verif/vf): encoding of the Python subset (DESIGN 2.2)',
     'z3 5.1 (API + z3-new CLI), cvc5 1.0.3 (strings)',
 ]
-ASSUMPTIONS = ['A-httpx: the client sends raw_path/query exactly as given in the URL string and a Host header equal to the URL host (audited by the bounded stand-in at MockTransport)', 'HMAC/SHA256/hex as uninterpreted deterministic functions; datetime formatting as uninterpreted functions of one clock reading', 'urllib.quote / urlencode(quote_via=quote) encode byte-wise (homomorphism); the per-byte table is checked exhaustively (256 values) by C16.wire', 'S3 subclass passes host = s3.<region>.amazonaws.com (one-line constructor, not under contract)']
+ASSUMPTIONS = ['A-httpx: the client sends raw_path/query exactly as given in the URL string and a Host header equal to the URL host (audited by the bounded stand-in at MockTransport)', 'HMAC/SHA256/hex as uninterpreted deterministic functions; datetime formatting as uninterpreted functions of one clock reading', 'urllib.quote / urlencode(quote_via=quote) encode byte-wise (homomorphism); the per-byte table is checked exhaustively (256 values) by C16.wire', 'the constructors of S3Compatible and S3 (regional endpoint s3.<region>.amazonaws.com) are under contract (s3c.ctor, s3.ctor units)']
 MANIFEST = {
     'text': 'Deductive proof that the Authorization header equals an independently written SigV4 spec term over exactly the values that go on the wire (method, the very encoded path appended to the URL, the very query string after "?", host / x-amz-content-sha256 / x-amz-date as sent, one clock reading for date and scope), that the declared payload hash and content-length match the body for bytes and stream uploads, and that body-less verbs declare the empty-payload hash.',
     'note': 'Trusted: vf engine, SMT solvers, uninterpreted crypto/formatting. The bounded stand-in recomputes signatures with an independent implementation from captured requests and enumerates the encoding of all 256 byte values.',
